@@ -119,6 +119,7 @@ func run(c *props.Ctx) {
 		ws := splatWriter(a, r, w)
 		rs := splatReader(a, r, rd)
 		splatPair(a, r, ws, rs)
+		qrange(c, w)
 	}
 
 	// ---- SPZ
